@@ -285,7 +285,7 @@ class Array(Base):
             else:
                 unit = self.unit
 
-        if "out" in kwargs:
+        if kwargs.get("out") is not None:
             out = kwargs["out"]
             out = out[0] if isinstance(out, tuple) else out
             out.unit = unit
